@@ -64,6 +64,7 @@ pub struct GuiState {
     /// a `ucinewgame` went out and no `position` since: the wrapper re-sends the position before
     /// the next `go`, as every GUI does (what the engine does with its own copy is its business)
     pub position_stale: bool,
+    pub resend_position: bool,
     pub outstanding: Option<Outstanding>,
     pub gos: Vec<GoRecord>,
     pub isready_sent: u64,
@@ -102,6 +103,7 @@ impl GuiState {
             moves: Vec::new(),
             game: Game::new(),
             position_stale: false,
+            resend_position: true,
             outstanding: None,
             gos: Vec::new(),
             isready_sent: 0,
@@ -209,7 +211,14 @@ impl GuiState {
                 }
                 Intent::UciNewGame => {
                     self.pc += 1;
-                    self.position_stale = true;
+                    if self.resend_position {
+                        self.position_stale = true;
+                    } else {
+                        // a new game starts from the start position, exactly as in a fresh engine
+                        self.fen = None;
+                        self.moves.clear();
+                        self.game = Game::new();
+                    }
                     return self.hand_over("ucinewgame".to_string(), core);
                 }
                 Intent::Position { fen, moves } => {
